@@ -195,6 +195,14 @@ def run(ctx) -> None:
             order0 = gen.explorable(4)
             rng.shuffle(order0)
             walk(ctx, {"n": 4, "family": fam0, "values": v0, "exact": e0, "computer": comp0, "toggles": order0[:6], "_force_reuse": True})
+    # guaranteed minimum: full reveal orders with 5 players (the smallest size at which a coalition has a best split into two
+    # known parts that are themselves covered by larger known parts), both exact computers
+    for comp0 in ("superadditive", "superadditive_cached", "superadditive"):
+        for fam0 in ("int", "addsur_int", "float", "convex_int"):
+            v0, e0 = gen.sa_game(rng, 5, fam0)
+            order0 = gen.explorable(5)
+            rng.shuffle(order0)
+            walk(ctx, {"n": 5, "family": fam0, "values": v0, "exact": e0, "computer": comp0, "toggles": order0})
     # n = 3: every edge, both directions, all six computers
     for comp in all_comps:
         for _ in range(1 if quick else 3):
